@@ -140,9 +140,19 @@ pub struct Flat {
 	/// (what the duplicate check sees): a leaf is a unit, an owned collection
 	/// is one unit, boxed/ref/retrying collections contribute their members' units
 	pub units: Vec<String>,
+	/// every Poisonable wrapper reachable through this value, including ones
+	/// that enclose no leaf at all (an empty Poisonable collection)
+	pub wrap_set: Vec<WrapId>,
 }
 
 impl Flat {
+	pub fn note_wraps(&mut self, w: &[WrapId]) {
+		for x in w {
+			if !self.wrap_set.contains(x) {
+				self.wrap_set.push(x.clone());
+			}
+		}
+	}
 	pub fn leaves(&self) -> Vec<Lid> {
 		self.pos.iter().map(|p| p.leaf).collect()
 	}
@@ -156,6 +166,9 @@ impl Flat {
 			self.pos.push(Pos { leaf: p.leaf, ty: p.ty, wraps: w, group: p.group });
 		}
 		self.units.extend(other.units.iter().cloned());
+		self.note_wraps(outer_wraps);
+		let ow = other.wrap_set.clone();
+		self.note_wraps(&ow);
 	}
 }
 
@@ -200,6 +213,7 @@ impl Sem {
 			let mut flat = Flat::default();
 			let mut inner = Vec::new();
 			let cw: Vec<WrapId> = if c.pois { vec![format!("C{ci}")] } else { vec![] };
+			flat.note_wraps(&cw);
 			match &c.content {
 				Content::ByRef(ms) => {
 					for (mi, m) in ms.iter().enumerate() {
@@ -208,6 +222,7 @@ impl Sem {
 								let d = &spec.leaves[*i];
 								let mut w = cw.clone();
 								w.extend(leaf_wraps(&format!("L{i}"), d));
+								flat.note_wraps(&w);
 								flat.pos.push(Pos { leaf: *i as Lid, ty: d.ty, wraps: w, group: u32::MAX });
 								flat.units.push(format!("l{i}"));
 							}
@@ -215,6 +230,7 @@ impl Sem {
 								let d = &spec.leaves[*i];
 								let mut w = cw.clone();
 								w.push(format!("W{ci}/{mi}"));
+								flat.note_wraps(&w);
 								flat.pos.push(Pos { leaf: *i as Lid, ty: d.ty, wraps: w, group: u32::MAX });
 								flat.units.push(format!("l{i}"));
 							}
@@ -275,6 +291,7 @@ impl Sem {
 				self.ty_of.push(d.ty);
 				let mut w = wraps.to_vec();
 				w.extend(leaf_wraps(&format!("{path}L"), d));
+				out.note_wraps(&w);
 				out.pos.push(Pos { leaf: id, ty: d.ty, wraps: w, group });
 				out.units.push(format!("l{id}"));
 			}
@@ -283,6 +300,7 @@ impl Sem {
 				if oc.pois && oc.kind == KindTag::Owned {
 					w.push(format!("{path}P"));
 				}
+				out.note_wraps(&w);
 				let g = if group == u32::MAX && oc.kind == KindTag::Owned {
 					let g = *next_group;
 					*next_group += 1;
@@ -320,6 +338,7 @@ impl Sem {
 						group: u32::MAX,
 					}],
 					units: vec![format!("l{i}")],
+					wrap_set: leaf_wraps(&format!("L{i}"), d),
 				}
 			}
 			TargetRef::Coll(c) => self.flats[c].clone(),
